@@ -159,7 +159,29 @@ pub fn run(input: &str, out: &mut dyn Write) -> u64 {
             let nb_key = EntityAny::from_raw((key ^ 0x100, gen)).unwrap();
             let nb_id = EntityAny::from_raw((key ^ 0x1, gen)).unwrap();
             let nb_gen = EntityAny::from_raw((key, if gen == u32::MAX { gen - 1 } else { gen + 1 })).unwrap();
-            let eqh = copy == any && hash_of(&copy) == hash_of(&any) && nb_key != any && nb_id != any && nb_gen != any;
+            // Eq is equality of the raw pair: a value differing in BOTH fields (by the same or by
+            // different bit patterns) is a different handle, whatever the patterns are
+            let mut two_field_ok = true;
+            const MASKS: [u32; 9] = [0x1, 0x2, 0x80, 0x100, 0x101, 0x8000, 0x1_0000, 0x80_0000, 0x8000_0001];
+            for m1 in MASKS {
+                for m2 in MASKS {
+                    if gen ^ m2 == 0 { continue; }
+                    let other = EntityAny::from_raw((key ^ m1, gen ^ m2)).unwrap();
+                    if other == any || any == other || !(other != any) || other.raw() == any.raw() {
+                        two_field_ok = false;
+                    }
+                    // the typed handles delegate: same archetype id on both sides means both convert
+                    if (m1 & 0xff) == 0 {
+                        macro_rules! typed_ne { ($A:ident) => {
+                            if let (Ok(a), Ok(b)) = (Entity::<$A>::try_from(any), Entity::<$A>::try_from(other)) {
+                                if a == b { two_field_ok = false; }
+                            }
+                        }; }
+                        typed_ne!(Ap); typed_ne!(Aq); typed_ne!(Ar); typed_ne!(Aw);
+                    }
+                }
+            }
+            let eqh = copy == any && hash_of(&copy) == hash_of(&any) && nb_key != any && nb_id != any && nb_gen != any && two_field_ok;
             let first = seen.insert(any);
             let again = !seen.insert(any);
             map.insert(any, (key, gen));
@@ -235,6 +257,36 @@ pub fn run(input: &str, out: &mut dyn Write) -> u64 {
         derr_is_type!(EntityDirect::<Ar>::try_from(da));
         if SelectEntityDirect::try_from(da).is_err() { derr_ok = false; }
     }
+    // Eq / Hash of direct handles over a churn history: two direct handles are equal exactly when
+    // their (key, version) pairs are, whatever bit patterns the two fields differ by (300 removals take
+    // the archetype version across bit 8, so index and version differences with equal patterns occur)
+    let mut direct_eq_ok = true;
+    {
+        let mut w2 = VW::new();
+        let mut pool: Vec<EntityDirectAny> = Vec::new();
+        let mut live: Vec<Entity<Ap>> = Vec::new();
+        for round in 0..300u32 {
+            let data = <Ap as AOps>::make(&[round as i64]);
+            let t = <Ap as AOps>::h_create(&mut w2, data, 0);
+            live.push(Entity::<Ap>::try_from(EntityAny::from_raw(t).unwrap()).unwrap());
+            if round % 64 < 3 || round > 250 {
+                for e in &live { pool.push(w2.to_direct(*e).unwrap().into()); }
+            }
+            if live.len() > 3 {
+                let e = live.remove((round as usize) % 2);
+                w2.destroy(e);
+            }
+        }
+        for (i, a) in pool.iter().enumerate() {
+            for b in &pool[i..] {
+                let same_raw = dtok(*a) == dtok(*b);
+                if (a == b) != same_raw || (same_raw && hash_of(a) != hash_of(b)) { direct_eq_ok = false; }
+                if let (Ok(x), Ok(y)) = (EntityDirect::<Ap>::try_from(*a), EntityDirect::<Ap>::try_from(*b)) {
+                    if (x == y) != same_raw { direct_eq_ok = false; }
+                }
+            }
+        }
+    }
     // the step enums: Default, From<()>, From<EcsStep>, is_destroy (what the loop macros' closures return)
     let step_ok = matches!(EcsStep::default(), EcsStep::Continue) && matches!(EcsStepDestroy::default(), EcsStepDestroy::Continue)
         && matches!(EcsStep::from(()), EcsStep::Continue) && matches!(EcsStepDestroy::from(()), EcsStepDestroy::Continue)
@@ -246,6 +298,6 @@ pub fn run(input: &str, out: &mut dyn Write) -> u64 {
     let errs = [EcsError::InvalidEntityType, EcsError::InvalidRawEntity];
     let err_ok = errs.iter().all(|e| { let c = e.clone(); let b: &dyn std::error::Error = e; c == *e && !format!("{}", e).is_empty() && !format!("{:?}", b).is_empty() })
         && errs[0] != errs[1] && format!("{}", errs[0]) != format!("{}", errs[1]);
-    writeln!(out, "{}", J::O(vec![("direct", J::A(dres)), ("direct_errors_ok", J::B(derr_ok)), ("step_ok", J::B(step_ok)), ("err_values_ok", J::B(err_ok))]).to_line()).unwrap();
+    writeln!(out, "{}", J::O(vec![("direct", J::A(dres)), ("direct_errors_ok", J::B(derr_ok)), ("direct_eq_ok", J::B(direct_eq_ok)), ("step_ok", J::B(step_ok)), ("err_values_ok", J::B(err_ok))]).to_line()).unwrap();
     n
 }
